@@ -203,11 +203,12 @@ def _has_uf(term, only=None):
 def _valid_fresh(hyps, goal, timeout_ms=5000):
     """validity of hyps => goal in a fresh solver (used only to SELECT candidate terms; whatever is
     selected is then proved in context as an obligation of its own)"""
+    from vc.core import limited_check
+
     sv = z3.Solver()
-    sv.set("timeout", timeout_ms)
     sv.add(*hyps)
     sv.add(z3.Not(goal))
-    return sv.check() == z3.unsat
+    return limited_check(sv, timeout_ms) == z3.unsat  # CPU-time budget
 
 
 def _quick_prove(c, name, goal, extra_hyps=(), timeout_ms=10000):
@@ -244,11 +245,12 @@ def _nra_lemma(c, name, nvars, build, inst):
     t0 = time.time()
     vs = [z3.Real(f"lem{k}") for k in range(nvars)]
     hy, concl = build(*vs)
+    from vc.core import limited_check
+
     sv = z3.Solver()
-    sv.set("timeout", 20000)
     sv.add(*hy)
     sv.add(z3.Not(concl))
-    res = sv.check()
+    res = limited_check(sv, 20000)  # CPU-time budget
     path = "".join("T" if d else "F" for d in c.decisions)
     status = "discharged" if res == z3.unsat else "unknown"
     c.session.record(Obligation(name, status, "z3(fresh solver, universally quantified lemma)", (time.time() - t0) * 1e3, path, detail="" if res == z3.unsat else f"lemma not proved: {res}", tag="abstracted"))
